@@ -474,6 +474,10 @@ func (fc *FnCtx) finish(st *State, rets []Value, where string, pos token.Pos) {
 	if len(rets) == 1 {
 		scope["result"] = rets[0]
 	}
+	scope["lasterr"] = Int(0) // the error result (nil for functions without one)
+	if n := res.Len(); n > 0 && n <= len(rets) && isErrorType(res.At(n-1).Type()) {
+		scope["lasterr"] = rets[n-1]
+	}
 	// bind named results in state too
 	for i, r := range fc.results {
 		if r != nil && i < len(rets) {
@@ -506,6 +510,9 @@ func (fc *FnCtx) finish(st *State, rets []Value, where string, pos token.Pos) {
 // the modifies clause is unchanged; slice parameters whose elements were
 // written must be listed.
 func (fc *FnCtx) frameCheck(st *State, where string, pos token.Pos) {
+	if fc.c.ModAll {
+		return // "modifies *": no frame is claimed
+	}
 	type tgt struct {
 		obj   int
 		field string
@@ -514,6 +521,9 @@ func (fc *FnCtx) frameCheck(st *State, where string, pos token.Pos) {
 	allowedVars := map[string]bool{}
 	sc := fc.specCtx(fc.entry.Clone(), nil)
 	for _, m := range fc.c.Modifies {
+		if fc.c.ModAll {
+			break
+		}
 		if _, isGhost := sc.ghostLvalOf(m); isGhost {
 			// out(b) of an in-memory buffer (strings.Builder / bytes.Buffer) is the buffer object itself
 			if call, ok := m.(*ast.CallExpr); ok && exprString(call.Fun) == "out" && len(call.Args) == 1 {
@@ -649,6 +659,9 @@ func (e *Engine) LemmaObligation(lm *Lemma) {
 		goal := ec.evalBool(lm.Concl)
 		hyps = append(hyps, st.pc...)
 		e.addObl(&Obligation{Name: name, Kind: "lemma", Func: name, Hyps: hyps, Goal: goal, Note: lm.Text})
+	case "axiom":
+		// a fact about specification functions that the engine does not derive (listed in the trusted base)
+		e.trusted["axiom lemma "+lm.Name+": "+lm.Text] = true
 	default:
 		if strings.HasPrefix(lm.By, "compute") {
 			e.computeLemma(lm, name)
@@ -984,6 +997,18 @@ func (e *Engine) dischargeOne(o *Obligation, tier Tier, workdir string) {
 		return
 	}
 	extra := ""
+	if o.Cover {
+		// a cover query looks for a contradiction among the assumptions; quantified assumptions (representation
+		// invariants) are left out of it: with them the solvers only ever answer "unknown" after the time limit
+		qm := map[*Term]bool{}
+		var keep []*Term
+		for _, h := range o.Hyps {
+			if !hasQuantifier(h, qm) {
+				keep = append(keep, h)
+			}
+		}
+		o.Hyps = keep
+	}
 	hy, gl := SliceHyps(o.Hyps, o.Goal), o.Goal
 	if o.AbsPrefix && !o.Cover {
 		hy, gl = AbstractPrefix(hy, gl)
